@@ -10,3 +10,7 @@ META = {'C11': dict(level='model_checking', assumptions=[], not_claimed=['equali
 for st, nm in [(1, '{"*":true}'), (0, '{"a":true}')]:
     OBS.append(Ob(['C11', 'C03'], 'filter_obj_%s' % ('star' if st else 'a'), 'filt', 'harness/filt.c', 'h_filter_obj', defs=['STAR=%d' % st], unwind=8, fs=4096, objbits=12, cap=300, hunwind=8,
         desc='Filter navigation on the object filter %s (built with the low-level API): member / wildcard by key; an index selects nothing (consistent with allowArray() == false)' % nm, bound='all 256 values of the one-byte key'))
+for ml in (0, 1, 2):
+    for ll in (0, 1, 2):
+        OBS.append(Ob(['C01', 'C14', 'C04'], 'obj_find_m%d_l%d' % (ml, ll), 'filt', 'harness/filt.c', 'h_obj_find', defs=['MLEN=%d' % ml, 'LLEN=%d' % ll], unwind=8, fs=4096, objbits=12, cap=300, hunwind=8,
+            desc='ObjectData::getMember / obj[key] on an object whose only key has %d byte(s), looked up with a key of %d byte(s), sized and zero-terminated: found iff identical (empty key, NUL and prefixes included)' % (ml, ll), bound='all values of the key bytes'))
